@@ -326,7 +326,18 @@ def verify_no_custom_copy(run):
     cp = src.func("engine", "Engine.copy")
     run.under_contract("engine", "Engine.copy", cp)
     body = [ast.unparse(x) for x in cp.body if not (isinstance(x, ast.Expr) and isinstance(x.value, ast.Constant))]
-    run.add(static("engine.Engine.copy/is_deepcopy", body == ["import copy", "engine = copy.deepcopy(self)", "return engine"], f"body: {body}", fn="engine.Engine.copy", meta={"replay": RP_COPY}))
+    # recognised spellings: [import copy | from copy import deepcopy]; [x = <deepcopy>(self); return x | return <deepcopy>(self)]
+    core = [x for x in cp.body if not isinstance(x, (ast.Import, ast.ImportFrom)) and not (isinstance(x, ast.Expr) and isinstance(x.value, ast.Constant))]
+    imported = {a.asname or a.name for x in cp.body if isinstance(x, ast.ImportFrom) and x.module == "copy" for a in x.names if a.name == "deepcopy"}
+    expr = None
+    if len(core) == 1 and isinstance(core[0], ast.Return) and core[0].value is not None:
+        expr = core[0].value
+    elif (len(core) == 2 and isinstance(core[0], (ast.Assign, ast.AnnAssign)) and isinstance(core[1], ast.Return) and isinstance(core[1].value, ast.Name)
+          and isinstance((core[0].targets[0] if isinstance(core[0], ast.Assign) else core[0].target), ast.Name)
+          and (core[0].targets[0] if isinstance(core[0], ast.Assign) else core[0].target).id == core[1].value.id):
+        expr = core[0].value
+    ok = expr is not None and (ast.unparse(expr) == "copy.deepcopy(self)" or (ast.unparse(expr) in {f"{n}(self)" for n in imported}))
+    run.add(static("engine.Engine.copy/is_deepcopy", ok, f"body: {body}", fn="engine.Engine.copy", meta={"replay": RP_COPY}))
     # no module-level or class-level mutable cache is written by the functions of the processing path (frames are per-object; this is the global part)
     bad = []
     for (m, q), fns in src.functions.items():
